@@ -161,6 +161,15 @@ MULTIFILE_ORDER = [
     "main:\n    call fa\n    call fb\n    li a7, 10\n    ecall\nfa:\n    beqz a0, shared\n    li s1, 1\n    ret\nfb:\n    li s2, 2\nshared:\n    li s3, 3\n    ret\n",
 ]
 
+# shapes on which two lints, or two nodes from one token, find the same problem (C10: reported once)
+DUP_PROGRAMS = [
+    "main:\n    lw x0, lab\n    li a7, 10\n    ecall\n.data\nlab: .word 1\n",
+    "main:\n    lw zero, lab\n    sw t0, lab, t1\n    lb x0, lab\n    li a7, 10\n    ecall\n.data\nlab: .word 1\n",
+    "f:\n    mv a0, s1\n    ret\nmain:\n    call f\n    li a7, 10\n    ecall\n",
+    "f:\n    add a0, s1, t0\n    ret\nmain:\n    li t0, 1\n    call f\n    li a7, 10\n    ecall\n",
+    "main:\n    jal t1, K2\nK1:\n    j L1\n    j L1\n    jal ra, L2\nL1:\n    jr ra\nL2:\n    la t2, L2\n    csrrw zero, 5, t2\nK2:\n    beq t0, t1, K1\n",
+]
+
 # several files that hold code at the same line/column/offset (anything keyed on a range alone confuses them)
 TWIN_FILES = [
     {"main.s": "main:\n    li a0, 1\n    call pick\n    li a7, 10\n    ecall\npick:\n    beqz a0, other\n.include \"a.s\"\nother:\n.include \"b.s\"\n",
